@@ -369,16 +369,43 @@ func laneE2E(c *ev.Ctx) {
 	sizes := []int64{0, 1, 2, 100, 70000}
 	bigSizes := []int64{262145, 790753}
 	n := c.Pick(500, 40000)
+	// If-Range validators that may accompany a Range: with one that matches the range is served, with one that does not
+	// the answer may be the whole object instead (200) - never a 200 that carries a slice
+	ifRange := func(kind string, obj []byte) string {
+		switch kind {
+		case "current-etag":
+			return `"` + s3c.MD5Hex(obj) + `"`
+		case "stale-etag":
+			return `"` + s3c.MD5Hex([]byte("an older body")) + `"`
+		case "weak-etag":
+			return `W/"` + s3c.MD5Hex(obj) + `"`
+		case "unquoted-etag":
+			return s3c.MD5Hex(obj)
+		case "garbage":
+			return "not a validator"
+		case "date-past":
+			return "Mon, 02 Jan 2006 15:04:05 GMT"
+		case "date-future":
+			return "Fri, 01 Jan 2088 00:00:00 GMT"
+		}
+		return ""
+	}
+	ifRangeKinds := []string{"current-etag", "stale-etag", "weak-etag", "unquoted-etag", "garbage", "date-past", "date-future"}
+	comp := ""
 	one := func(id string, size int64, h string, head bool) {
 		obj := objs[size]
 		key := fmt.Sprintf("o%d", size)
 		var resp *s3c.Resp
 		method := "GET"
+		hdr := []string{"Range", h}
+		if comp != "" {
+			hdr = append(hdr, "If-Range", ifRange(comp, obj))
+		}
 		if head {
 			method = "HEAD"
-			resp = cl.HeadObject("rng", key, "Range", h)
+			resp = cl.HeadObject("rng", key, hdr...)
 		} else {
-			resp = cl.GetObject("rng", key, "Range", h)
+			resp = cl.GetObject("rng", key, hdr...)
 		}
 		c.Eval(1)
 		if resp.Err != nil && strings.HasPrefix(resp.Err.Error(), "read body") && env.GWs[0].Alive() {
@@ -406,10 +433,17 @@ func laneE2E(c *ev.Ctx) {
 			// the property speaks about GET; a HEAD that ignores Range is the "unsupported form" outcome
 			e.strict = append(e.strict, outcome{kind: "ignore"})
 		}
+		if comp != "" {
+			e.strict = append(e.strict, outcome{kind: "ignore"})
+			e.class += "+if-range:" + comp
+		}
 		c.Distinct("e2e|" + method + "|" + sizeClass(size) + "|" + e.class)
 		cr := resp.Header.Get("Content-Range")
 		cl := resp.Header.Get("Content-Length")
 		obs := map[string]any{"method": method, "size": size, "range": h, "status": resp.Status, "content_range": cr, "content_length": cl, "body_len": len(resp.Body), "class": e.class}
+		if comp != "" {
+			obs["if_range"] = ifRange(comp, obj)
+		}
 		bad := func(sig, why string) {
 			obs["why"] = why
 			c.Violation("e2e:"+sig, id, obs)
@@ -469,6 +503,19 @@ func laneE2E(c *ev.Ctx) {
 			}
 		}
 	}
+	// every validator kind with a plain satisfiable range, on a small and a long object
+	for _, s := range []int64{100, 790753} {
+		for i, k := range ifRangeKinds {
+			for j, h := range []string{"bytes=10-29", "bytes=50-", "bytes=-7"} {
+				id := fmt.Sprintf("e2e/if-range/%d/%d/%d", s, i, j)
+				if c.Want(id) {
+					comp = k
+					one(id, s, h, false)
+					comp = ""
+				}
+			}
+		}
+	}
 	for i := 0; i < n; i++ {
 		size := sizes[r.Intn(len(sizes))]
 		if r.Intn(10) == 0 {
@@ -476,10 +523,16 @@ func laneE2E(c *ev.Ctx) {
 		}
 		h := genHeader(r, size)
 		id := fmt.Sprintf("e2e/gen/%d", i)
+		ck := ""
+		if r.Intn(6) == 0 {
+			ck = ifRangeKinds[r.Intn(len(ifRangeKinds))]
+		}
 		if !c.Want(id) {
 			continue
 		}
+		comp = ck
 		one(id, size, h, i%7 == 6)
+		comp = ""
 		if i < 2 {
 			c.Sample(map[string]any{"lane": "e2e", "size": size, "range": h})
 		}
